@@ -899,7 +899,14 @@ struct sc_thread {
     size_t nown;
     long bad_pattern;
     size_t serial;
+    /* `m`: this thread reads bytes_active while the others run; lo/hi = range of the harness's own live-byte account
+     * during the call (every bin is read under its lock, so the value must lie in that range) */
+    bool mon_active;
+    size_t mon_lo, mon_hi;
+    long bad_metric;
 };
+static size_t s_sc_live;        /* sum of the size classes of the live small blocks, kept by the harness */
+static char s_sc_metric_msg[200];
 static struct {
     size_t size;
     int pre;
@@ -918,13 +925,30 @@ struct sc_verdict {
 
 static long s_sc_ops; /* bin operations performed by the workers of the current run */
 
+static void s_sc_account(long delta) {
+    s_sc_live = (size_t)((long)s_sc_live + delta);
+    for (int i = 0; i < s_sc.nthreads; ++i) {
+        struct sc_thread *m = &s_sc.th[i];
+        if (m->mon_active) {
+            if (s_sc_live < m->mon_lo) {
+                m->mon_lo = s_sc_live;
+            }
+            if (s_sc_live > m->mon_hi) {
+                m->mon_hi = s_sc_live;
+            }
+        }
+    }
+}
+
 static void s_sc_release(struct sc_thread *th, size_t idx) {
     struct blk *b = &th->own[idx];
     ++s_sc_ops;
     if (!s_intact(b)) {
         th->bad_pattern++;
     }
+    long cls = (long)b->cls;
     aws_mem_release(s_sba, b->ptr);
+    s_sc_account(-cls); /* same scheduler step as the unlock of the bin */
     memmove(b, b + 1, (th->nown - idx - 1) * sizeof(*b));
     th->nown--;
 }
@@ -942,7 +966,21 @@ static void *s_sc_worker(void *arg) {
                 ++s_sc_ops;
                 b->ptr = aws_mem_acquire(s_sba, b->size);
                 s_set_cls(b, b->size);
+                s_sc_account((long)b->cls);
                 s_fill(b);
+            }
+        } else if (!strcmp(tk, "m")) {
+            th->mon_lo = th->mon_hi = s_sc_live;
+            th->mon_active = true;
+            size_t v = aws_small_block_allocator_bytes_active(s_sba);
+            th->mon_active = false;
+            if (v < th->mon_lo || v > th->mon_hi) {
+                if (!th->bad_metric++) {
+                    snprintf(s_sc_metric_msg, sizeof(s_sc_metric_msg),
+                             "bytes_active read by a third thread while others were inside the bins returned %zu; the live small "
+                             "blocks' size classes summed to between %zu and %zu during the call",
+                             v, th->mon_lo, th->mon_hi);
+                }
             }
         } else if (!strcmp(tk, "rf") && th->nown) {
             s_sc_release(th, 0);
@@ -995,11 +1033,18 @@ static void s_sc_run(const struct ds_config *cfg, struct sc_verdict *v) {
         s_fill(b);
     }
     size_t next = 0;
+    s_sc_live = 0;
+    s_sc_metric_msg[0] = 0;
+    for (size_t k = 0; k < nmain; ++k) {
+        s_sc_live += mainb[k].cls;
+    }
     for (int i = 0; i < s_sc.nthreads; ++i) {
         struct sc_thread *th = &s_sc.th[i];
         th->nown = 0;
         th->bad_pattern = 0;
         th->serial = 0;
+        th->mon_active = false;
+        th->bad_metric = 0;
         for (int g = 0; g < th->give && next < nmain; ++g) {
             th->own[th->nown++] = mainb[next++];
         }
@@ -1068,6 +1113,8 @@ static void s_sc_run(const struct ds_config *cfg, struct sc_verdict *v) {
         /* synchronisation skeleton: every bin operation of a multi-threaded allocator runs under the bin mutex */
         snprintf(v->what, sizeof(v->what), "multi-threaded allocator performed %ld bin operations but took a mutex only %ld times",
                  s_sc_ops, n_locks);
+    } else if (s_sc_metric_msg[0]) {
+        snprintf(v->what, sizeof(v->what), "%s", s_sc_metric_msg);
     } else if (badp || !in) {
         snprintf(v->what, sizeof(v->what), "fill pattern of a live block destroyed (%ld at release, intact=%d)", badp, in);
     } else if (!d || !ow || !a) {
